@@ -7,15 +7,18 @@ CONSTANTS
   MaxBg = 2
   MaxLosses = 2
   MaxLogins = 2
+  SlowScan = {TRUE, FALSE}
   Env = {"exec", "peerin", "userdisc", "midburst"}
   MaxConnFail = 1
   FixAutoJoin = TRUE
   FixDistStopped = TRUE
   FixWatchdogStopped = TRUE
+  FixCancelFirst = TRUE
   FixTimersStopped = TRUE
   FixStaleInit = TRUE
   FixSelfAwait = TRUE
   FixQueueOnce = TRUE
+  FixScanStopped = TRUE
 INVARIANT TypeOK
 INVARIANT AdvertisedOnly
 INVARIANT AdvertisedExactly
